@@ -245,6 +245,9 @@ func checkNewlineIndex(c *Ctx, ni, inc *ssa.Function) {
 	P := c.P
 	name := "parser.NewlineIndex"
 	rets := returnsOf(ni)
+	if newlineIndexLib(c, ni, "shape") {
+		return
+	}
 	if len(rets) != 1 || len(rets[0].Results) != 2 || len(ni.Params) != 1 {
 		c.undecided(name+":shape", P.pos(ni.Pos()), "NewlineIndex does not have a single (index, length) return")
 		return
@@ -343,4 +346,188 @@ func checkNewlineIndex(c *Ctx, ni, inc *ssa.Function) {
 	}
 	c.check(lenOK, name+":length", P.pos(ni.Pos()), "length is 0 only when the scan reached the end of s, and >= 1 when a line-break byte was found",
 		"length can be 0 although a line-break byte was found (or nonzero without one): isSingleLine / NextChunk misjudge the value")
+}
+
+// newlineIndexLib recognises and checks the library form of NewlineIndex:
+//
+//	i := strings.IndexAny(s, K)            // K's characters are exactly CR and LF
+//	i < 0   ⇒ return len(s), 0
+//	i >= 0  ⇒ return i, 2  exactly when s[i] == CR and the byte after it is LF, else i, 1
+//
+// part "shape" checks the first two lines and "length >= 1 with index i" (R14.4), part "crlf" the
+// CR LF clause (R01.11). It returns false if the function is not of this form (the caller then
+// tries the loop form). strings.IndexAny's contract (first index of any of the characters, -1 if none)
+// is part of the trusted base.
+func newlineIndexLib(c *Ctx, ni *ssa.Function, part string) bool {
+	P := c.P
+	name := "parser.NewlineIndex"
+	if len(ni.Params) != 1 || len(loopsOf(ni)) > 0 {
+		return false
+	}
+	s := ni.Params[0]
+	var find *ssa.Call
+	eachInstr(ni, func(in ssa.Instruction) {
+		if call, ok := isStaticCall(in, "strings.IndexAny"); ok && call.Call.Args[0] == ssa.Value(s) {
+			find = call
+		}
+	})
+	if find == nil {
+		return false
+	}
+	isI := func(v ssa.Value) bool { return v == ssa.Value(find) }
+	set, isK := constString(find.Call.Args[1])
+	chars := map[rune]bool{}
+	for _, r := range set {
+		chars[r] = true
+	}
+	setOK := isK && len(chars) == 2 && chars[13] && chars[10]
+	paths, okP := abstractPaths(ni, 1024, func(ssa.Value) (bool, bool) { return false, false })
+	if !okP || len(paths) == 0 {
+		c.undecided(name+":shape", P.pos(ni.Pos()), "too many paths")
+		return true
+	}
+	pathHas := func(p absPath, pred func(ifi *ssa.If, e int) bool) bool {
+		for e := range p.St.Edges {
+			if len(e.From.Instrs) == 0 {
+				continue
+			}
+			if ifi, ok := e.From.Instrs[len(e.From.Instrs)-1].(*ssa.If); ok && pred(ifi, e.Idx) {
+				return true
+			}
+		}
+		return false
+	}
+	charAt := func(v ssa.Value, off int64) bool {
+		var x, ix ssa.Value
+		switch q := v.(type) {
+		case *ssa.Index:
+			x, ix = q.X, q.Index
+		case *ssa.Lookup:
+			x, ix = q.X, q.Index
+		default:
+			return false
+		}
+		if x != ssa.Value(s) {
+			return false
+		}
+		if off == 0 {
+			return isI(ix)
+		}
+		b, ok := ix.(*ssa.BinOp)
+		if !ok || b.Op != token.ADD || !isI(b.X) {
+			return false
+		}
+		k, isK := constInt(b.Y)
+		return isK && k == off
+	}
+	// edge facts
+	notFound := func(ifi *ssa.If, e int) bool {
+		ee, ok := intEdge(ifi, isI, -1, -1, -1)
+		return ok && ee == e
+	}
+	foundE := func(ifi *ssa.If, e int) bool {
+		ee, ok := intEdge(ifi, isI, -1, 0, posInf)
+		return ok && ee == e
+	}
+	byteIs := func(off int64, k int64, want bool) func(ifi *ssa.If, e int) bool {
+		return func(ifi *ssa.If, e int) bool {
+			cnd := decodeIf(ifi)
+			if cnd.Y == nil || (cnd.Op != token.EQL && cnd.Op != token.NEQ) {
+				return false
+			}
+			kk, isK := constInt(cnd.Y)
+			if !isK || kk != k || !charAt(cnd.X, off) {
+				return false
+			}
+			return e == cnd.succWhen((cnd.Op == token.EQL) == want)
+		}
+	}
+	// "the byte after i is LF": s[i+1] == LF, or HasPrefix(s[i+1:], "\n")
+	lfNext := func(want bool) func(ifi *ssa.If, e int) bool {
+		direct := byteIs(1, 10, want)
+		return func(ifi *ssa.If, e int) bool {
+			if direct(ifi, e) {
+				return true
+			}
+			succ, ok := boolEdge(ifi, func(v ssa.Value) bool {
+				call, ok := isStaticCall(v, "strings.HasPrefix")
+				if !ok {
+					return false
+				}
+				pre, isK := constString(call.Call.Args[1])
+				sl, isSl := call.Call.Args[0].(*ssa.Slice)
+				if !isK || pre != "\n" || !isSl || sl.X != ssa.Value(s) || sl.High != nil {
+					return false
+				}
+				b, ok := sl.Low.(*ssa.BinOp)
+				if !ok || b.Op != token.ADD || !isI(b.X) {
+					return false
+				}
+				k, isK := constInt(b.Y)
+				return isK && k == 1
+			})
+			if !ok {
+				return false
+			}
+			if want {
+				return e == succ
+			}
+			return e == 1-succ
+		}
+	}
+	shapeOK, crlfOK := setOK, true
+	whyShape, whyCRLF := "", ""
+	if !setOK {
+		whyShape = "the searched character set is not exactly {CR, LF}"
+	}
+	sawTwo := false
+	for _, p := range paths {
+		if len(p.Ret.Results) != 2 {
+			return false
+		}
+		ri, rl := p.St.resolve(p.Ret.Results[0]), p.St.resolve(p.Ret.Results[1])
+		k, isK := evalInt(rl)
+		switch {
+		case pathHas(p, notFound):
+			if !(isLenOf(ri, s) && isK && k == 0) {
+				shapeOK = false
+				whyShape = "without a line break the result is not (len(s), 0)"
+			}
+		case pathHas(p, foundE):
+			if !(isI(ri) && isK && k >= 1) {
+				shapeOK = false
+				whyShape = "with a line break at i the result is not (i, length >= 1)"
+			}
+			if isK && k == 2 {
+				sawTwo = true
+				if !(pathHas(p, byteIs(0, 13, true)) && pathHas(p, lfNext(true))) {
+					crlfOK = false
+					whyCRLF = "length 2 is reported without s[i] == CR and s[i+1] == LF having been established"
+				}
+			} else if isK && k == 1 {
+				if !(pathHas(p, byteIs(0, 13, false)) || pathHas(p, lfNext(false))) {
+					crlfOK = false
+					whyCRLF = "length 1 is reported on a path that did not rule out CR LF"
+				}
+			} else {
+				crlfOK = false
+				whyCRLF = "a length other than 1 or 2"
+			}
+		default:
+			shapeOK = false
+			whyShape = "a return is reached without testing the search result against -1"
+		}
+	}
+	if !sawTwo {
+		crlfOK = false
+		whyCRLF = "CR LF is never reported as one terminator of length 2"
+	}
+	if part == "shape" {
+		c.check(shapeOK, name+":scan-order", P.ipos(find), "index = strings.IndexAny(s, CR LF): the first line-break byte", "NewlineIndex (library form) is wrong: "+whyShape)
+		c.check(shapeOK, name+":advance-guard", P.ipos(find), "s[:index] holds no line-break byte (IndexAny returns the first)", "NewlineIndex (library form) is wrong: "+whyShape)
+		c.check(shapeOK, name+":length", P.ipos(find), "length is 0 exactly when no line-break byte exists", "NewlineIndex (library form) is wrong: "+whyShape)
+	} else {
+		c.check(crlfOK, name+":crlf", P.ipos(find), "length 2 exactly for CR immediately followed by LF", "NewlineIndex (library form): "+whyCRLF+": CR LF is counted as two line ends (a spurious empty line / premature dispatch) or a lone CR swallows the next byte")
+	}
+	return true
 }
